@@ -3,6 +3,7 @@
 package main
 
 import (
+	"errors"
 	"fmt"
 	"math/rand"
 	"runtime"
@@ -238,6 +239,140 @@ func c14DeleteDuringLoad(e *vfEnv, r *vfkit.R, rng *rand.Rand, idx int) {
 	f3 := m.leave("me", false)
 	if f2 == nil || f3 == nil {
 		r.Violation("unanswered:after-delete-during-load", fmt.Sprintf("requests of the subscriber's session after the failed load: {sub me} -> %s, {leave me} -> %s", codeStr(f2), codeStr(f3)), map[string]any{"script": script})
+	}
+}
+
+// c14TablesAgree reports sessions which list a topic that does not list them (or is gone) and vice versa, for
+// the given clients' server-side sessions.
+func c14TablesAgree(r *vfkit.R, label string, script []string) {
+	globals.sessionStore.lock.Lock()
+	var sessions []*Session
+	for _, s := range globals.sessionStore.sessCache {
+		sessions = append(sessions, s)
+	}
+	globals.sessionStore.lock.Unlock()
+	for _, s := range sessions {
+		s.subsLock.RLock()
+		var names []string
+		for tn := range s.subs {
+			names = append(names, tn)
+		}
+		s.subsLock.RUnlock()
+		for _, tn := range names {
+			t := globals.hub.topicGet(tn)
+			listed := false
+			if t != nil {
+				_, listed = t.sessions[s]
+			}
+			if !listed {
+				r.Violation("session-lists-topic-not-vice-versa:"+topicKind(tn)+":"+label, fmt.Sprintf("session %s lists topic %s but the topic does not list the session (or is not loaded)", s.userAgent, tn), map[string]any{"script": script})
+			}
+		}
+	}
+}
+
+// c14FailedDelete: the owner's {del topic} fails in the store. The topic goes on as before: sessions can leave,
+// disconnect and attach, and nobody stays listed.
+func c14FailedDelete(e *vfEnv, r *vfkit.R, rng *rand.Rand, idx int) {
+	w := vfNewWorld(e, r, rng)
+	defer func() { w.closeAll(); e.vfQuiesceD(20 * time.Second) }()
+	uo, um := w.user(fmt.Sprintf("f%do", idx), auth.LevelAuth), w.user(fmt.Sprintf("f%dm", idx), auth.LevelAuth)
+	o, m, m2 := w.conn(uo, false), w.conn(um, false), w.conn(um, false)
+	grp, f := o.newGroup(idx%2 == 1, map[string]any{"public": "failed-delete"})
+	if f == nil || f.code() != 200 {
+		r.Inconclusive("c14 failed delete: create failed")
+		return
+	}
+	m.sub(grp, nil)
+	m2.sub(grp, nil)
+	e.vfQuiesce()
+	fired := false
+	vfRec.setFault(func(c *vfmem.Call) error {
+		if c.Op == "TopicDelete" && c.Topic == grp && !fired {
+			fired = true
+			return errors.New("vf injected failure at TopicDelete")
+		}
+		return nil
+	})
+	fd := o.del(grp, "topic", map[string]any{"hard": true})
+	vfRec.setFault(nil)
+	e.vfQuiesce()
+	if !fired {
+		r.InfoAdd("failed_delete_not_reached", 1)
+		return
+	}
+	f1 := m.leave(grp, false)
+	m2.close()
+	e.vfQuiesce()
+	f2 := m.sub(grp, nil)
+	f3 := m.leave(grp, false)
+	e.vfQuiesceD(10 * time.Second)
+	r.Hit("topic_delete_failed_in_store")
+	r.Eval(fmt.Sprintf("failed-delete/del=%s/leave=%s/sub=%s/leave=%s", codeStr(fd), codeStr(f1), codeStr(f2), codeStr(f3)))
+	script := []string{"owner {del topic} with the store failing -> " + codeStr(fd), "member {leave} -> " + codeStr(f1), "member's other session disconnects", "member {sub} -> " + codeStr(f2), "member {leave} -> " + codeStr(f3)}
+	if fd == nil || fd.code() < 400 {
+		r.Violation("failed-delete-acknowledged", "the owner's {del topic} whose store call failed was answered "+codeStr(fd), map[string]any{"script": script})
+	}
+	for i, fr := range []*vfFrame{f1, f2, f3} {
+		if fr == nil {
+			r.Violation("unanswered:after-failed-delete", fmt.Sprintf("request %d after the failed deletion was never answered", i+1), map[string]any{"script": script})
+		} else if fr.code() >= 500 {
+			r.Violation(fmt.Sprintf("topic-unusable-after-failed-delete:%d", fr.code()), "after a {del topic} which failed in the store the topic refuses ordinary requests: "+fr.Raw, map[string]any{"script": script})
+		}
+	}
+	if t := globals.hub.topicGet(grp); t != nil {
+		for s2, p2 := range t.sessions {
+			if p2.uid == um.uid {
+				r.Violation("session-leak:grp:after-failed-delete", fmt.Sprintf("the member left / disconnected but the topic still lists its session %s", s2.userAgent), map[string]any{"script": script})
+			}
+		}
+		if pud := t.perUser[um.uid]; pud.online != 0 {
+			r.Violation("online-counter:grp:after-failed-delete", fmt.Sprintf("the member left / disconnected but the topic counts %d online sessions", pud.online), map[string]any{"script": script})
+		}
+	}
+}
+
+// c14SoftAccountDeletion: a user deletes the own account without 'hard' while a peer's session is attached to the
+// user's group and to the p2p topic with the user. Some time later the peer's session leaves both: it must be
+// answered, and must not list topics which are gone.
+func c14SoftAccountDeletion(e *vfEnv, r *vfkit.R, rng *rand.Rand, idx int) {
+	w := vfNewWorld(e, r, rng)
+	defer func() { w.closeAll(); e.vfQuiesceD(20 * time.Second) }()
+	ua, ub := w.user(fmt.Sprintf("s%da", idx), auth.LevelAuth), w.user(fmt.Sprintf("s%db", idx), auth.LevelAuth)
+	a, b := w.conn(ua, false), w.conn(ub, false)
+	grp, f := a.newGroup(false, map[string]any{"public": "soft-delete"})
+	if f == nil || f.code() != 200 {
+		r.Inconclusive("c14 soft deletion: create failed")
+		return
+	}
+	an := ua.uid.UserId()
+	b.sub(grp, nil)
+	b.sub(an, nil)
+	a.sub(ub.uid.UserId(), nil)
+	e.vfQuiesce()
+	from := a.frameCount()
+	idDel := a.send("del", map[string]any{"what": "user", "hard": idx%2 == 1})
+	fdel := a.waitCtrl(idDel, from, vfReplyWait)
+	e.vfQuiesce()
+	time.Sleep(700 * time.Millisecond)
+	f1 := b.leave(grp, false)
+	f2 := b.leave(an, false)
+	f3 := b.sub("me", nil)
+	e.vfQuiesceD(10 * time.Second)
+	r.Hit("account_deleted_while_peer_attached")
+	r.Eval(fmt.Sprintf("account-deletion/hard=%v/del=%s/leave-grp=%s/leave-p2p=%s", idx%2 == 1, codeStr(fdel), codeStr(f1), codeStr(f2)))
+	script := []string{fmt.Sprintf("user A {del user hard=%v} -> %s while B is attached to A's group and to the p2p topic", idx%2 == 1, codeStr(fdel)), "0.7 s later", "B {leave group} -> " + codeStr(f1), "B {leave p2p} -> " + codeStr(f2), "B {sub me} -> " + codeStr(f3)}
+	if !b.isClosed() {
+		for i, fr := range []*vfFrame{f1, f2, f3} {
+			if fr == nil {
+				r.Violation("unanswered:after-account-deletion", fmt.Sprintf("request %d of the peer's session after the account deletion was never answered", i+1), map[string]any{"script": script})
+				break
+			}
+		}
+	}
+	c14TablesAgree(r, "after-account-deletion", script)
+	if bl := c14Blocked(); len(bl) > 0 {
+		r.Violation("blocked-forever:"+bl[0]+":after-account-deletion", "server goroutines are parked where only another goroutine could release them: "+strings.Join(bl, "; "), map[string]any{"script": script, "stacks": c14LastStacks})
 	}
 }
 
@@ -593,6 +728,10 @@ func TestVfC14(t *testing.T) {
 			c14DetachRace(e, r, rng, i)
 		}
 		c14DeleteDuringLoad(e, r, rng, i)
+		if i < 2 {
+			c14FailedDelete(e, r, rng, i)
+			c14SoftAccountDeletion(e, r, rng, i)
+		}
 	}
 	rounds := r.Pick(4, 12)
 	for i := 0; i < rounds; i++ {
